@@ -53,6 +53,9 @@ pub enum E2Cmd {
     Inspect,
     /// ask server i to gossip with j now (ChitchatHandle::gossip)
     GossipCmd { i: usize, j: usize },
+    /// snapshot server i's pools, let exactly its next gossip round happen with nothing delivered to
+    /// it in between, and check the round's SYN destinations against the pools (C17)
+    RoundCheck { i: usize },
     /// faults stop: heal, no loss; every server that still runs must bring its copy of every
     /// running member it knows to the owner's max version within `rounds` gossip intervals
     Quiesce { rounds: u64 },
@@ -618,6 +621,77 @@ impl Run {
                     }
                 }
             }
+            E2Cmd::RoundCheck { i } => {
+                let i = *i;
+                let Some(srv) = self.srv.get(i) else { return Ok(()) };
+                if srv.ended || srv.handle.is_none() || self.excuse_budget(i) > 0 {
+                    return Ok(());
+                }
+                let me = addr(i);
+                // let the server drain what is already in its inbox (and fire any missed ticks):
+                // a 1 us sleep on the paused clock returns only when every other task is idle
+                tokio::time::sleep(Duration::from_micros(1)).await;
+                let srv = &self.srv[i];
+                let h = srv.handle.as_ref().unwrap();
+                let pools = tokio::time::timeout(
+                    Duration::from_millis(self.cfg.interval_ms * 10),
+                    h.with_chitchat(|c| {
+                        let own = c.self_chitchat_id().clone();
+                        let peers: Vec<SocketAddr> = c.node_states().keys().filter(|id| **id != own).map(|id| id.gossip_advertise_addr).collect();
+                        let live: Vec<SocketAddr> = c.live_nodes().filter(|id| **id != own).map(|id| id.gossip_advertise_addr).collect();
+                        let dead: Vec<SocketAddr> = c.dead_nodes().map(|id| id.gossip_advertise_addr).collect();
+                        let seeds: Vec<SocketAddr> = c.seed_nodes().into_iter().filter(|a| *a != own.gossip_advertise_addr).collect();
+                        (peers, live, dead, seeds)
+                    }),
+                )
+                .await;
+                let Ok((peers, live, dead, seeds)) = pools else {
+                    return Err(viol(self.step, "C19.deadlock", format!("with_chitchat on server {i} did not return")));
+                };
+                {
+                    let mut net = self.net.lock().unwrap();
+                    let keys: Vec<(SocketAddr, u64)> = net.syn_at.keys().filter(|k| k.0 == me).cloned().collect();
+                    for k in keys {
+                        net.syn_at.remove(&k);
+                    }
+                }
+                let user_cmds_before = self.gossip_cmds.get(&me).copied().unwrap_or(0);
+                // nothing is delivered while we wait: the queue is only drained by advance_to
+                tokio::time::sleep(Duration::from_millis(self.cfg.interval_ms + 2)).await;
+                let first_round: Option<Vec<SocketAddr>> = {
+                    let mut net = self.net.lock().unwrap();
+                    let mut rounds: Vec<(u64, Vec<SocketAddr>)> = net.syn_at.iter().filter(|(k, _)| k.0 == me).map(|(k, v)| (k.1, v.clone())).collect();
+                    rounds.sort();
+                    net.stats.inc("round_checks");
+                    rounds.into_iter().next().map(|r| r.1)
+                };
+                let Some(tos) = first_round else {
+                    self.net.lock().unwrap().stats.inc("round_checks_without_syn");
+                    return Ok(());
+                };
+                if user_cmds_before > 0 {
+                    return Ok(());
+                }
+                self.nontrivial = true;
+                let pool: &Vec<SocketAddr> = if live.is_empty() { &peers } else { &live };
+                let desc = format!("server {i}: peers {} live {} dead {} seeds {}, SYNs to {:?}", peers.len(), live.len(), dead.len(), seeds.len(), tos.iter().map(|a| a.port()).collect::<Vec<_>>());
+                for t in &tos {
+                    if !peers.contains(t) && !seeds.contains(t) {
+                        return Err(viol(self.step, "C17.outside_pools", format!("{desc}: destination outside peers and seeds")));
+                    }
+                }
+                let in_pool = tos.iter().filter(|t| pool.contains(t)).count();
+                if in_pool < pool.len().min(3) {
+                    return Err(viol(self.step, "C17.too_few", format!("{desc}: only {in_pool} destinations in the pool of {}", pool.len())));
+                }
+                if dead.len() > live.len() && !tos.iter().any(|t| dead.contains(t)) {
+                    return Err(viol(self.step, "C17.dead_not_forced", format!("{desc}: dead peers outnumber live ones but none was contacted")));
+                }
+                if live.is_empty() && !seeds.is_empty() && !tos.iter().any(|t| seeds.contains(t)) {
+                    return Err(viol(self.step, "C17.seed_not_forced", format!("{desc}: no live peer, a seed exists, yet no seed was contacted")));
+                }
+                Ok(())
+            }
             E2Cmd::Inspect => {
                 self.inspect().await?;
                 self.check_copies().await
@@ -861,7 +935,13 @@ fn gen_cmds(seed: u64) -> (E2Cfg, Vec<E2Cmd>) {
             13 => E2Cmd::FailNextSends { i, count: r.range(1, 12) as u32 },
             14 => E2Cmd::StallNextSend { i, ms: *r.pick(&[10u64, 1000, 5000]) },
             15 => E2Cmd::HoldLock { i, ms: *r.pick(&[1u64, 100, 3000]) },
-            16 => E2Cmd::GossipCmd { i, j: r.usize_below(n) },
+            16 => {
+                if r.chance(0.5) {
+                    E2Cmd::GossipCmd { i, j: r.usize_below(n) }
+                } else {
+                    E2Cmd::RoundCheck { i }
+                }
+            }
             17 if terminal_used < 2 => {
                 terminal_used += 1;
                 match r.below(3) {
@@ -870,6 +950,7 @@ fn gen_cmds(seed: u64) -> (E2Cfg, Vec<E2Cmd>) {
                     _ => E2Cmd::Shutdown { i },
                 }
             }
+            18 => E2Cmd::RoundCheck { i },
             _ => E2Cmd::Inspect,
         };
         cmds.push(c);
